@@ -558,6 +558,7 @@ func wfExtents(T []uint64) bool {
 //@   ensures selflive: implies(i != dst && result1 == nil && result0 != TypeNone, i.off == dst.off && i.t == dst.t && i.cur == dst.cur && i.addNext == stepAddNext(i.t, i.cur, i.off) && i.off+i.addNext <= len(i.tape.Tape) && i.off > old(i.off)+old(i.addNext))
 //@   ensures direct: implies(i != dst && result1 == nil && old(i.off)+old(i.addNext) < len(old(i.tape.Tape)) && tagOf(old(i.tape.Tape)[old(i.off)+old(i.addNext)]) != TagNop, i.off == old(i.off)+old(i.addNext)+1 && i.t == tagOf(old(i.tape.Tape)[i.off-1]) && i.cur == payOf(old(i.tape.Tape)[i.off-1]) && i.addNext == stepAddNext(i.t, i.cur, i.off) && result0 == TagToType[i.t])
 //@   ensures atend: implies(old(i.off)+old(i.addNext) == len(old(i.tape.Tape)), result0 == TypeNone && result1 == nil)
+//@   ensures nonequeue: implies(i != dst && result1 == nil && result0 == TypeNone, i.addNext == 0 && !isNumOrString(i.t) && !isContainerTag(i.t) && i.t != TagRoot)
 //@   ensures aliased: implies(i == dst && result1 == nil && result0 != TypeNone, i.off > old(i.off)+old(i.addNext) && len(i.tape.Tape)-i.off-i.addNext < len(old(i.tape.Tape))-old(i.off)-old(i.addNext))
 //@   invariant 0 0 <= i.off && i.off <= 1<<57 && old(i.off)+old(i.addNext) <= i.off && sameSlice(i.tape.Tape, old(i.tape.Tape))
 //@   invariant 0 direct: implies(i.off != old(i.off)+old(i.addNext), old(i.off)+old(i.addNext) < len(i.tape.Tape) && tagOf(i.tape.Tape[old(i.off)+old(i.addNext)]) == TagNop)
@@ -575,6 +576,7 @@ func wfExtents(T []uint64) bool {
 //@   ensures selflive: implies(i != dst && result1 == nil && result0 != TypeNone, i.off == dst.off && i.t == dst.t && i.cur == dst.cur && i.addNext == stepAddNext(i.t, i.cur, i.off) && i.off+i.addNext <= len(i.tape.Tape) && i.off > old(i.off)+old(i.addNext))
 //@   ensures direct: implies(i != dst && result1 == nil && old(i.off)+old(i.addNext) < len(old(i.tape.Tape)) && tagOf(old(i.tape.Tape)[old(i.off)+old(i.addNext)]) != TagNop, i.off == old(i.off)+old(i.addNext)+1 && i.t == tagOf(old(i.tape.Tape)[i.off-1]) && i.cur == payOf(old(i.tape.Tape)[i.off-1]) && i.addNext == stepAddNext(i.t, i.cur, i.off) && result0 == TagToType[i.t])
 //@   ensures atend: implies(old(i.off)+old(i.addNext) == len(old(i.tape.Tape)), result0 == TypeNone && result1 == nil)
+//@   ensures nonequeue: implies(i != dst && result1 == nil && result0 == TypeNone, i.addNext == 0 && !isNumOrString(i.t) && !isContainerTag(i.t) && i.t != TagRoot)
 //@   ensures aliased: implies(i == dst && result1 == nil && result0 != TypeNone, i.off > old(i.off)+old(i.addNext) && len(i.tape.Tape)-i.off-i.addNext < len(old(i.tape.Tape))-old(i.off)-old(i.addNext))
 //@   invariant 0 0 <= i.off && i.off <= 1<<57 && old(i.off)+old(i.addNext) <= i.off && sameSlice(i.tape.Tape, old(i.tape.Tape))
 //@   invariant 0 direct: implies(i.off != old(i.off)+old(i.addNext), old(i.off)+old(i.addNext) < len(i.tape.Tape) && tagOf(i.tape.Tape[old(i.off)+old(i.addNext)]) == TagNop)
@@ -1346,6 +1348,7 @@ func appended2(res, dst []byte, a, b byte) bool {
 //@   ensures empty: implies(tagOf(a.tape.Tape[a.off]) == TagArrayEnd, result1 == nil && appended2(result0, old(dst), '[', ']'))
 //@   invariant 0 iterOK(&i) && sameSlice(i.tape.Tape, a.tape.Tape) && i.tape.Strings == a.tape.Strings
 //@   decreases 0 len(i.tape.Tape) - i.off - i.addNext
+//@   invariant 0 [C12,C02] level: i.addNext == stepAddNext(i.t, i.cur, i.off)
 //@   safe [C05]
 
 func appended1(res, dst []byte, a byte) bool {
@@ -1401,6 +1404,7 @@ func marshalMeasure(i *Iter) int {
 //@   requires 0 <= a.off && a.off <= 1<<56
 //@   invariant 0 iterOK(&i)
 //@   decreases 0 maxInt(0, len(i.tape.Tape)-i.off-i.addNext)
+//@   invariant 0 [C12,C02] level: i.addNext == stepAddNext(i.t, i.cur, i.off)
 //@   safe
 
 //@ func (*Array).AsString
@@ -1408,6 +1412,7 @@ func marshalMeasure(i *Iter) int {
 //@   requires 0 <= a.off && a.off <= 1<<56 && a.tape.Strings != nil
 //@   invariant 0 iterOK(&i) && i.tape.Strings != nil
 //@   decreases 0 len(i.tape.Tape) - i.off - i.addNext
+//@   invariant 0 [C12,C02] level: i.addNext == stepAddNext(i.t, i.cur, i.off)
 //@   safe
 
 //@ func (*Array).AsStringCvt
@@ -1415,6 +1420,7 @@ func marshalMeasure(i *Iter) int {
 //@   requires 0 <= a.off && a.off <= 1<<56 && a.tape.Strings != nil
 //@   invariant 0 iterOK(&i) && i.tape.Strings != nil
 //@   decreases 0 len(i.tape.Tape) - i.off - i.addNext
+//@   invariant 0 [C12,C02] level: i.addNext == stepAddNext(i.t, i.cur, i.off)
 //@   safe
 
 //@ func (*Iter).StringCvt
@@ -1468,6 +1474,7 @@ func ifaceMeasureIter(i *Iter) int {
 //@   decreases rec 4*maxInt(0, len(a.tape.Tape)-a.off) + 1
 //@   invariant 0 iterOK(&i) && i.tape.Strings != nil && i.off >= a.off && len(i.tape.Tape) == len(a.tape.Tape)
 //@   decreases 0 maxInt(0, len(i.tape.Tape)-i.off-i.addNext)
+//@   invariant 0 [C12,C02] level: i.addNext == stepAddNext(i.t, i.cur, i.off)
 //@   safe
 
 //@ func (*Object).Map
@@ -1488,3 +1495,15 @@ func ifaceMeasureIter(i *Iter) int {
 //@   invariant 0 iterOK(&cp) && cp.tape.Strings != nil
 //@   decreases 0 marshalMeasure(&cp)
 //@   safe
+
+// The iterator ParsedJson.ForEach hands to its callback stands on the first entry inside a root whose window ends with
+// the closing root entry. Marshalling it must produce the document it exposes; smallest instance: the empty object.
+//@ func (*Iter).MarshalJSONBuffer variant foreach-empty
+//@   props C10
+//@   requires iterOK(i) && i.tape.Strings != nil && i.addNext == 0 && 2 <= i.off && i.off < 1<<40 && len(i.tape.Tape) == i.off+2
+//@   requires i.t == TagObjectStart && i.cur == uint64(i.off)+1 && i.tape.Tape[i.off-1] == uint64(TagObjectStart)<<56|i.cur
+//@   requires i.tape.Tape[i.off] == uint64(TagObjectEnd)<<56|uint64(i.off-1) && tagOf(i.tape.Tape[i.off+1]) == TagRoot && payOf(i.tape.Tape[i.off+1]) == uint64(i.off-2)
+//@   ensures marshals: result1 == nil && appended2(result0, old(dst), '{', '}')
+//@   invariant 0 iterOK(i) && len(stack) >= 1 && stack[0] == 0
+//@   decreases 0 marshalMeasure(i)
+
